@@ -4,7 +4,7 @@
 //! through every combination of differing addresses, alone and inside a mesh.
 
 use crate::engine::{Ctx, Viol};
-use crate::sim::{base_config, NetSim};
+use crate::sim::{base_config, fam, set_sim_v4, NetSim};
 use proptest::prelude::*;
 use serde::{Deserialize, Serialize};
 use serde_json::{json, Value};
@@ -26,6 +26,9 @@ pub struct GraphCase {
     /// addresses of other interfaces; an announcement carries at most seven addresses per family and node
     #[serde(default)]
     pub advertise: u8,
+    /// the simulated network is an IPv4 one (IPv4-mapped socket addresses)
+    #[serde(default)]
+    pub v4: bool,
 }
 
 fn pairs(n: usize) -> Vec<(usize, usize)> {
@@ -108,6 +111,13 @@ fn self_peer_violation(sim: &NetSim<Frame>) -> Option<String> {
 }
 
 pub fn graph_case(ctx: &Ctx, c: &GraphCase) -> Vec<Viol> {
+    let prev = set_sim_v4(c.v4);
+    let r = graph_case_inner(ctx, c);
+    set_sim_v4(prev);
+    r
+}
+
+fn graph_case_inner(ctx: &Ctx, c: &GraphCase) -> Vec<Viol> {
     ctx.eval();
     let cj = || json!({"kind": "graph", "case": c});
     let mut out = vec![];
@@ -125,7 +135,7 @@ pub fn graph_case(ctx: &Ctx, c: &GraphCase) -> Vec<Viol> {
             cfg.crypto.algorithms = vec!["plain".to_string()];
         }
         if c.advertise & (1 << i) != 0 {
-            cfg.advertise_addresses = (0..7).map(|k| format!("[fd00:99:{:x}::{:x}]:{}", i + 1, k + 1, 3210 + i)).collect();
+            cfg.advertise_addresses = (0..7).map(|k| if c.v4 { format!("10.99.{}.{}:{}", i + 1, k + 1, 3210 + i) } else { format!("[fd00:99:{:x}::{:x}]:{}", i + 1, k + 1, 3210 + i) }).collect();
         }
         sim.add_node(&cfg, c.nat & (1 << i) != 0);
     }
@@ -318,15 +328,25 @@ pub struct SelfDial {
     /// replies sent to the come-back address are looped as well (full hair-pin) or dropped
     pub loop_replies: bool,
     pub seconds: u16,
+    /// IPv4 network (IPv4-mapped addresses everywhere)
+    #[serde(default)]
+    pub v4: bool,
 }
 
 pub fn selfdial_case(ctx: &Ctx, c: &SelfDial) -> Vec<Viol> {
+    let prev = set_sim_v4(c.v4);
+    let r = selfdial_case_inner(ctx, c);
+    set_sim_v4(prev);
+    r
+}
+
+fn selfdial_case_inner(ctx: &Ctx, c: &SelfDial) -> Vec<Viol> {
     ctx.eval();
     let cj = || json!({"kind": "selfdial", "case": c});
     let mut out = vec![];
-    let f: SocketAddr = "[fd00::f0]:5000".parse().unwrap();
-    let g: SocketAddr = "[fd00::99]:5999".parse().unwrap();
-    let adv: SocketAddr = "[fd00::ad]:5100".parse().unwrap();
+    let f: SocketAddr = fam("[fd00::f0]:5000".parse().unwrap());
+    let g: SocketAddr = fam("[fd00::99]:5999".parse().unwrap());
+    let adv: SocketAddr = fam("[fd00::ad]:5100".parse().unwrap());
     let mut sim: NetSim<Frame> = NetSim::new();
     let nn = if c.in_mesh { 3 } else { 1 };
     for i in 0..nn {
@@ -351,7 +371,7 @@ pub fn selfdial_case(ctx: &Ctx, c: &SelfDial) -> Vec<Viol> {
         1 => adv,
         _ => own,
     };
-    let f2: SocketAddr = "[fd00::f2]:5002".parse().unwrap();
+    let f2: SocketAddr = fam("[fd00::f2]:5002".parse().unwrap());
     let crossed = c.comes_back_from % 5 == 4;
     let back = match c.comes_back_from % 5 {
         0 => f,
@@ -417,11 +437,18 @@ pub fn selfdial_case(ctx: &Ctx, c: &SelfDial) -> Vec<Viol> {
 
 /// a node whose datagrams reach the others from a translated address F: the others report F under its identity,
 /// the node must adopt F as its own address and never dial it
-pub fn adoption_case(ctx: &Ctx, seconds: u16) -> Vec<Viol> {
+pub fn adoption_case(ctx: &Ctx, seconds: u16, v4: bool) -> Vec<Viol> {
+    let prev = set_sim_v4(v4);
+    let r = adoption_case_inner(ctx, seconds, v4);
+    set_sim_v4(prev);
+    r
+}
+
+fn adoption_case_inner(ctx: &Ctx, seconds: u16, v4: bool) -> Vec<Viol> {
     ctx.eval();
-    let case = json!({"kind": "adoption", "seconds": seconds});
+    let case = json!({"kind": "adoption", "seconds": seconds, "v4": v4});
     let mut out = vec![];
-    let f: SocketAddr = "[fd00::f0]:5000".parse().unwrap();
+    let f: SocketAddr = fam("[fd00::f0]:5000".parse().unwrap());
     let mut sim: NetSim<Frame> = NetSim::new();
     for _ in 0..3 {
         let mut cfg = base_config();
@@ -432,7 +459,7 @@ pub fn adoption_case(ctx: &Ctx, seconds: u16) -> Vec<Viol> {
     let own = sim.addr(0);
     // address translation in front of node 0: its datagrams appear from F, datagrams to F reach it, and its
     // private socket address is not routable from outside
-    let nowhere: SocketAddr = "[fd00::dead]:1".parse().unwrap();
+    let nowhere: SocketAddr = fam("[fd00::dead]:1".parse().unwrap());
     sim.rewrite = Some(Box::new(move |src, dst| {
         let s = if src == own { f } else { src };
         let d = if dst == f {
@@ -484,7 +511,7 @@ pub fn adoption_case(ctx: &Ctx, seconds: u16) -> Vec<Viol> {
     if !p1.contains(&f) || !p2.contains(&f) || !sim.is_connected(0, 1) || !sim.is_connected(0, 2) {
         out.push(Viol::new("no-full-mesh-within-bound", format!("translated node: peers of 1 {:?}, peers of 2 {:?}", p1, p2), case));
     }
-    ctx.nontrivial(&("adoption", seconds));
+    ctx.nontrivial(&("adoption", seconds, v4));
     out
 }
 
@@ -509,9 +536,9 @@ pub fn run(ctx: &Ctx) {
         for code in 0..total {
             let edges: Vec<u8> = (0..np).map(|k| ((code >> (2 * k)) & 3) as u8).collect();
             if usable_connected(n, &edges, 0) {
-                cases.push(GraphCase { nodes: n as u8, edges: edges.clone(), nat: 0, plain: false, advertise: 0 });
+                cases.push(GraphCase { nodes: n as u8, edges: edges.clone(), nat: 0, plain: false, advertise: 0, v4: false });
                 if n == 3 || code % 5 == 0 {
-                    cases.push(GraphCase { nodes: n as u8, edges, nat: 0, plain: true, advertise: 0 });
+                    cases.push(GraphCase { nodes: n as u8, edges, nat: 0, plain: true, advertise: 0, v4: n == 3 });
                 }
             }
         }
@@ -523,7 +550,7 @@ pub fn run(ctx: &Ctx) {
         for advertise in [0b001u8, 0b010, 0b100, 0b111] {
             for nat in [0u8, 0b001, 0b010, 0b100] {
                 if usable_connected(3, &edges, nat) {
-                    cases.push(GraphCase { nodes: 3, edges: edges.clone(), nat, plain: false, advertise });
+                    cases.push(GraphCase { nodes: 3, edges: edges.clone(), nat, plain: false, advertise, v4: (code + advertise as u32 + nat as u32) % 2 == 1 });
                     adv_cases += 1;
                 }
             }
@@ -553,7 +580,7 @@ pub fn run(ctx: &Ctx) {
                     e[k] = 1 + edges[27 - i] % 3;
                 }
             }
-            let c = GraphCase { nodes: *nodes, edges: e, nat: if *use_nat { *nat } else { 0 }, plain: edges[20] == 3, advertise: *advertise };
+            let c = GraphCase { nodes: *nodes, edges: e, nat: if *use_nat { *nat } else { 0 }, plain: edges[20] == 3, advertise: *advertise, v4: edges[21] & 1 == 1 };
             graph_case(ctx, &c)
         },
     );
@@ -583,7 +610,8 @@ pub fn run(ctx: &Ctx) {
         for dialled in 0..3u8 {
             for back in 0..5u8 {
                 for loop_replies in [false, true] {
-                    sd.push(SelfDial { in_mesh, dialled, comes_back_from: back, loop_replies, seconds: 130 });
+                    sd.push(SelfDial { in_mesh, dialled, comes_back_from: back, loop_replies, seconds: 130, v4: false });
+                    sd.push(SelfDial { in_mesh, dialled, comes_back_from: back, loop_replies, seconds: 130, v4: true });
                 }
             }
         }
@@ -593,13 +621,15 @@ pub fn run(ctx: &Ctx) {
         let v = selfdial_case(ctx, c);
         ctx.report(v);
     });
-    ctx.subspace("self dial: {alone, in mesh} x dialled {forwarded, advertised, own} x comes back from {forwarded, foreign, own, advertised, second dialled address (crossed)} x replies looped or not", nsd, true);
+    ctx.subspace("self dial: {alone, in mesh} x dialled {forwarded, advertised, own} x comes back from {forwarded, foreign, own, advertised, second dialled address (crossed)} x replies looped or not x {IPv6, IPv4} network", nsd, true);
     ctx.sample("self-dial", || serde_json::to_value(&sd[3]).unwrap());
     for s in [0u16, 150, 450] {
-        let v = adoption_case(ctx, s);
-        ctx.report(v);
+        for v4 in [false, true] {
+            let v = adoption_case(ctx, s, v4);
+            ctx.report(v);
+        }
     }
-    ctx.subspace("node behind address translation: reported address adopted and never dialled (3 durations, spanning the own-address reset)", 3, true);
+    ctx.subspace("node behind address translation: reported address adopted and never dialled (3 durations, spanning the own-address reset) x {IPv6, IPv4} network", 6, true);
 }
 
 pub fn replay(ctx: &Ctx, case: &Value) {
@@ -607,7 +637,7 @@ pub fn replay(ctx: &Ctx, case: &Value) {
         Some("graph") => serde_json::from_value::<GraphCase>(case["case"].clone()).map(|c| graph_case(ctx, &c)).unwrap_or_default(),
         Some("selfdial") => serde_json::from_value::<SelfDial>(case["case"].clone()).map(|c| selfdial_case(ctx, &c)).unwrap_or_default(),
         Some("bigmesh") => serde_json::from_value::<BigMesh>(case["case"].clone()).map(|c| bigmesh_case(ctx, &c)).unwrap_or_default(),
-        Some("adoption") => adoption_case(ctx, case["seconds"].as_u64().unwrap_or(0) as u16),
+        Some("adoption") => adoption_case(ctx, case["seconds"].as_u64().unwrap_or(0) as u16, case["v4"].as_bool().unwrap_or(false)),
         _ => vec![],
     };
     ctx.report(v);
